@@ -81,7 +81,7 @@ class C04(hc.PProp):
             k = rng.randint(1, min(3, len(conn_tokens)))
             groups = [conn_tokens[i::k] for i in range(k)]
             for g in groups:
-                sep = rng.choice([',', ', ', ' , ', ',,', ', ,'])
+                sep = rng.choice([',', ', ', ' , ', ',,', ', ,', ',\t', '\t,\t', ', \t', ',\t '])   # OWS = SP / HTAB (RFC 9110 5.6.3)
                 conn_lines.append(sep.join(style(t) for t in g))
         if side == 'q' and rng.random() < 0.5:
             conn_lines.append(rng.choice(['keep-alive', 'Keep-Alive', 'close']))
